@@ -1,5 +1,5 @@
 """C12 — RAG chunks cover the document once, in order, with true metadata
-(Chunking.tla, ChunkingMC.tla, ChunkingTrace.tla, ChunkPack.tla)."""
+(Chunking.tla, ChunkingMC.tla, ChunkingTrace.tla, ChunkPack.tla, SectionTree.tla)."""
 import json
 from concurrent.futures import ThreadPoolExecutor
 from lib import vlib
@@ -18,6 +18,11 @@ EVIDENCE = dict(
          "NewChunker().Chunk and NewChunkerWithConfig (600/50 and 240/40); non-trivial = document with >= 2 heading levels or a "
          "paragraph at/above the maximum or nearly filling a chunk; distinct by "
          "element sequence + page numbers. Random larger documents are validated only through ChunkingTrace.tla. "
+         "Heading trees: every sequence of <= 7 (thorough 8) headings in which a heading goes at most one level deeper than "
+         "its predecessor (levels 1-6, each on its own page with a one-word paragraph: >= 2 sibling sections at every depth "
+         "1..6, 3 at depth 6 in thorough), plus <= 4 elements with skipped levels / bare headings; these, the simulated and the "
+         "random documents are also chunked with ChunkerConfig.MinHeadingLevel 1, 2, 4, 5, 6 (the spec emits the expected chain "
+         "for every MinHeadingLevel). "
          "PDF entry point: every document of <= 4 (thorough 5) letters over {H 18 pt, H 14 pt, P 3 lines, P 6 lines, L(3) "
          "bulleted/numbered, new page} plus -simulate documents (<= 3 pages, <= 5 elements per page) is rendered as positioned "
          "text (pdfdoc.BuildSimple) and read back through tabula.Open(pdf).Document() (page elements), .Chunks() and "
@@ -47,6 +52,10 @@ NOTES = """Interpretation choices (soundness first):
   from the maximum and minimum chunk size of the configuration under test, padding the last token (never a word of its own).
   ChunkPack.tla is the byte-size model of the layout chunker's accumulate/flush/orphan-merge loop; its "drop" variant (a short
   pending piece that does not fit into the previous chunk is discarded) is the negative control for that class of change.
+* Section path, strict rule: for rag.DocumentChunker the path of every chunk must be the full chain; for rag.Chunker with
+  MinHeadingLevel = m it must be the chain over headings of level <= m (emitted by the spec for m = 1..6) or the full chain.
+  SectionTitle, and the "[title]" line of TextWithContext when present, must name the innermost entry of the chunk's
+  SectionPath (judged first; a chunk without path - preamble, heading-less document - is not judged on its title).
 * PDF entry point: only conservation, order and metadata are asserted - every word token exactly once and in document order
   in Document().Pages[*].Elements (each element = one "chunk" on its page; elements without any word, e.g. a stray marker, are
   not judged), in the chunk texts and in the Markdown (one "chunk"); chunk indices/ids/totals; page ranges.  Whether the layout
@@ -57,7 +66,10 @@ NOTES = """Interpretation choices (soundness first):
 * Page numbers: model.Page.Number is the page the content came from; documents are built both by assigning Document.Pages
   and through Document.AddPage with the numbers preset (as extractor.go does)."""
 
-SPEC2SIG = {"gap": "coverage", "coverage": "coverage", "contiguous": "order"}
+# many short TLC runs: keep each JVM small (the default sizes GC and JIT threads for all cores)
+JVM_SMALL = "-XX:ParallelGCThreads=2 -XX:CICompilerCount=2 -Xms256m"
+
+SPEC2SIG = {"gap": "coverage", "coverage": "coverage", "contiguous": "order", "title": "path"}
 
 
 def _segments(events):
@@ -126,24 +138,34 @@ def run(ctx):
             # the packing loop of the layout chunker with byte sizes around Min/Max; the variant that discards a short
             # pending piece which does not fit into the previous chunk must be refuted
             ("ChunkPack", "ChunkPack_mc_quick.cfg" if q else "ChunkPack_mc_thorough.cfg", {}),
-            ("ChunkPack", "ChunkPack_mc_drop.cfg", {"expect_violation": True})]
-    with ThreadPoolExecutor(max_workers=6) as ex:
-        futs = [ex.submit(ctx.tlc, m, c, workers=3, timeout=3000, count=False, **kw) for m, c, kw in jobs]
-        # R2 emission runs meanwhile
-        gen = ctx.tlc("ChunkingMC", "Chunking_gen_quick.cfg" if q else "Chunking_gen_thorough.cfg", workers=1,
-                      collect=True, count=False, timeout=3000)
-        if q:   # quick: page numbers with gaps (3, 5, 7) only for documents of <= 3 letters
-            gap = ctx.tlc("ChunkingMC", "Chunking_gen_quick_gap.cfg", workers=1, collect=True, count=False, timeout=3000)
-            gen["cases"] += gap["cases"]
-        lists = ctx.tlc("ChunkingMC", "Chunking_gen_lists.cfg", workers=1, collect=True, count=False, timeout=3000)
-        bound = ctx.tlc("ChunkingMC", "Chunking_gen_bound_quick.cfg" if q else "Chunking_gen_bound_thorough.cfg", workers=1,
-                        collect=True, count=False, timeout=3000)
-        pdfgen = ctx.tlc("ChunkingMC", "Chunking_gen_pdf_quick.cfg" if q else "Chunking_gen_pdf_thorough.cfg", workers=1,
-                         collect=True, count=False, timeout=3000)
-        pdfsim = ctx.tlc("ChunkingMC", "Chunking_sim_pdf.cfg", workers=1, simulate=60 if q else 1500, depth=13,
-                         collect=True, count=False, timeout=3000)
-        sim = ctx.tlc("ChunkingMC", "Chunking_sim.cfg", workers=1, simulate=200 if q else 4000, depth=13,
-                      collect=True, count=False, timeout=3000)
+            ("ChunkPack", "ChunkPack_mc_drop.cfg", {"expect_violation": True}),
+            # how the layout chunker gives sections their path: append(parent.Path, heading) shares backing arrays between
+            # siblings (first at depth 4: H1 H2 H3 H4 H4) and must be refuted
+            ("SectionTree", "SectionTree_mc.cfg", {}),
+            ("SectionTree", "SectionTree_mc_append.cfg", {"expect_violation": True})]
+    with ThreadPoolExecutor(max_workers=8) as ex:
+        futs = [ex.submit(ctx.tlc, m, c, workers=3, timeout=3000, count=False, jvm=JVM_SMALL, **kw) for m, c, kw in jobs]
+        # R2 emission runs meanwhile, in a second pool (one JVM each, single worker for a stable order)
+        def emit(cfg, **kw):
+            return ctx.tlc("ChunkingMC", cfg, workers=1, collect=True, count=False, timeout=3000, jvm=JVM_SMALL, **kw)
+        with ThreadPoolExecutor(max_workers=4) as ex2:
+            e = {
+                "gen": ex2.submit(emit, "Chunking_gen_quick.cfg" if q else "Chunking_gen_thorough.cfg"),
+                # quick: page numbers with gaps (3, 5, 7) only for documents of <= 3 letters
+                "gap": ex2.submit(emit, "Chunking_gen_quick_gap.cfg") if q else None,
+                "lists": ex2.submit(emit, "Chunking_gen_lists.cfg"),
+                "bound": ex2.submit(emit, "Chunking_gen_bound_quick.cfg" if q else "Chunking_gen_bound_thorough.cfg"),
+                # heading trees: sibling sections at every depth 1..6 (one-word paragraphs), plus skipped levels / bare headings
+                "tree": ex2.submit(emit, "Chunking_gen_tree_quick.cfg" if q else "Chunking_gen_tree_thorough.cfg"),
+                "skip": ex2.submit(emit, "Chunking_gen_tree_skip.cfg"),
+                "pdfgen": ex2.submit(emit, "Chunking_gen_pdf_quick.cfg" if q else "Chunking_gen_pdf_thorough.cfg"),
+                "pdfsim": ex2.submit(emit, "Chunking_sim_pdf.cfg", simulate=60 if q else 1500, depth=13),
+                "sim": ex2.submit(emit, "Chunking_sim.cfg", simulate=150 if q else 4000, depth=13),
+            }
+            gen, lists, bound, tree, skip, pdfgen, pdfsim, sim = [e[k].result() for k in
+                                                                  ("gen", "lists", "bound", "tree", "skip", "pdfgen", "pdfsim", "sim")]
+            if e["gap"] is not None:
+                gen["cases"] += e["gap"].result()["cases"]
         for f, (_, _, kw) in zip(futs, jobs):
             r = f.result()
             if not kw:   # measured state counts of the exhaustive runs (negative controls are not counted)
@@ -151,7 +173,11 @@ def run(ctx):
                 ctx.transitions += r["generated"]
     ctx.exhaustive = True
     seen, cases = set(), []
-    for c in gen["cases"] + lists["cases"] + bound["cases"] + sim["cases"]:
+    for c in tree["cases"] + skip["cases"] + sim["cases"]:
+        c["tree"] = True   # also chunked with MinHeadingLevel 1, 2, 4, 5, 6
+    for c in tree["cases"] + skip["cases"]:
+        c["lean"] = True   # one-word paragraphs: the size presets add nothing
+    for c in gen["cases"] + lists["cases"] + bound["cases"] + tree["cases"] + skip["cases"] + sim["cases"]:
         k = json.dumps([c["doc"], c["pages"]])
         if k not in seen:
             seen.add(k)
@@ -161,8 +187,9 @@ def run(ctx):
     ctx.extra["cases_exhaustive"] = len(gen["cases"])
     ctx.extra["cases_exhaustive_lists"] = len(lists["cases"])
     ctx.extra["cases_exhaustive_boundary_sizes"] = len(bound["cases"])
+    ctx.extra["cases_heading_trees"] = len(tree["cases"]) + len(skip["cases"])
     ctx.extra["cases_simulated"] = len(sim["cases"])
-    tm = 80 if q else 40
+    tm = 150 if q else 40
     for i, c in enumerate(cases):
         c["tm"] = tm
         c["heavy"] = (i % (32 if q else 4) == 0)   # the 32 000-character presets on a fraction of the documents
